@@ -439,4 +439,120 @@ class Searches(Facet):
             w.cleanup()
 
 
-FACETS = [ExhaustiveSingle(), RandomHistories(), Searches()]
+def replay_tracker_history(ops, rec):
+    """Executes a tracker history given as data: [["init", minimize], ["new", v], ["flush", k],
+    ["again", i]] and judges it against the reference fold. Used both by the state machine
+    (after every step) and by --replay."""
+    from geneticengine.evaluation.sequential import SequentialEvaluator
+    from geneticengine.evaluation.tracker import SingleObjectiveProgressTracker
+    from geneticengine.problems import SingleObjectiveProblem
+    from geneticengine.solutions.individual import Individual
+
+    minimize = bool(ops[0][1]) if ops and ops[0][0] == "init" else False
+    rep = TableRep()
+    problem = SingleObjectiveProblem(lambda p: p[1], minimize=minimize)
+    spy = _mk_recorder()
+    tracker = SingleObjectiveProgressTracker(problem, SequentialEvaluator(), recorders=[spy])
+    pending, done = [], []
+    ref_best, n_events = None, 0
+    for op in ops[1:]:
+        if op[0] == "new":
+            pending.append(Individual((len(pending) + len(done), op[1]), rep))
+            continue
+        if op[0] == "flush":
+            batch, pending = pending[: op[1]], pending[op[1] :]
+        elif op[0] == "again" and done:
+            batch = [done[op[1] % len(done)]]
+        else:
+            continue
+        if not batch:
+            continue
+        tracker.evaluate(batch)
+        exp_flags = []
+        for ind in batch:
+            v = ind.genotype[1]
+            if ref_best is None or better(v, ref_best.genotype[1], minimize):
+                ref_best = ind
+                exp_flags.append(True)
+            else:
+                exp_flags.append(False)
+            if ind not in done:
+                done.append(ind)
+        got = tracker.get_best_individual()
+        hist = f"history {ops}"
+        if got is not ref_best:
+            worse = got is None or better(ref_best.genotype[1], got.genotype[1], minimize)
+            rec.fail(
+                "C12/stateful/" + ("best-is-not-the-best-evaluated" if worse else "best-replaced-on-tie"),
+                f"after {op}: tracker reports {None if got is None else got.genotype}, reference best {ref_best.genotype} (minimize={minimize}); {hist}",
+            )
+            return
+        flags = [f for _, f in spy.events[n_events:]]
+        n_events = len(spy.events)
+        if flags != exp_flags:
+            rec.fail("C12/stateful/is_best-flag-wrong", f"after {op}: is_best flags {flags}, expected {exp_flags} (minimize={minimize}); {hist}")
+            return
+
+
+class TrackerMachineFacet(Facet):
+    """Hypothesis RuleBasedStateMachine over the single-objective tracker: rules create
+    individuals, evaluate batches of pending ones and present already evaluated ones again; the
+    invariant compares the tracker with the reference fold after every step."""
+
+    name = "tracker_state_machine"
+    stateful = True
+
+    def budget(self, tier):
+        return (150, 2) if tier == "quick" else (600, 16)
+
+    def steps(self, tier):
+        return 20 if tier == "quick" else 40
+
+    def run(self, case, rec):
+        replay_tracker_history(case["ops"], rec)
+
+    def machine(self, new_recorder, stats):
+        from hypothesis import strategies as st
+        from hypothesis.stateful import RuleBasedStateMachine, initialize, invariant, rule
+
+        from vk.core import PropertyViolation
+
+        class TrackerMachine(RuleBasedStateMachine):
+            def __init__(self):
+                super().__init__()
+                self.ops = [["init", False]]
+                stats.cases += 1
+
+            @initialize(minimize=st.booleans())
+            def init(self, minimize):
+                self.ops = [["init", minimize]]
+
+            @rule(v=st.one_of(st.integers(-2, 3), st.sampled_from([0.5, -0.5, 1e9])))
+            def new(self, v):
+                self.ops.append(["new", v])
+
+            @rule(k=st.integers(1, 4))
+            def flush(self, k):
+                self.ops.append(["flush", k])
+
+            @rule(i=st.integers(0, 10))
+            def again(self, i):
+                self.ops.append(["again", i])
+
+            @invariant()
+            def agrees_with_reference_fold(self):
+                rec = new_recorder()
+                replay_tracker_history(self.ops, rec)
+                vals = [o[1] for o in self.ops if o[0] == "new"]
+                if _nontrivial_history(vals, bool(self.ops[0][1])):
+                    rec.nontrivial(self.ops)
+                if len(stats.samples) < 3 and len(self.ops) > 6:
+                    rec.sample({"ops": list(self.ops)})
+                bad = rec.unlisted()
+                if bad:
+                    raise PropertyViolation(bad[0][0], bad[0][1], {"ops": list(self.ops)})
+
+        return TrackerMachine
+
+
+FACETS = [ExhaustiveSingle(), RandomHistories(), Searches(), TrackerMachineFacet()]
